@@ -9,6 +9,15 @@
 #include "ristretto255.hpp"
 #include "codecs.hpp"
 #include "scrypt.hpp"
+#include <sys/wait.h>
+#include <sys/stat.h>
+#include <sys/time.h>
+#include <sys/random.h>
+#include <fcntl.h>
+#include <unistd.h>
+#include <errno.h>
+#include <stdarg.h>
+#include <signal.h>
 using namespace vh;
 
 namespace {
@@ -312,7 +321,204 @@ void explore_gen(Ctx &ctx) {
     }
 }
 
+// ------------------------------------------------------------------ (d) the two built-in sources on a scripted kernel
+// "With any installed random source": the sources the library ships (sysrandom, the default; internal, the ChaCha20-based one) are
+// installed sources too.  Their entropy comes from getrandom(2) or, when that is unavailable, from read(2) on /dev/urandom; both are
+// interposed at link time (-Wl,--wrap) and serve a scripted byte stream, with EINTR / EAGAIN failures and short reads as the kernel
+// may produce them.  Each scenario runs in a forked child (the sources keep static state).
+struct KCall { const uint8_t *dst; size_t n, off; bool probe; };
+struct Kernel {
+    bool active = false; int mode = 0; uint64_t seed = 0; size_t pos = 0; int ufd = -1; unsigned fail_run = 0; uint64_t ncall = 0, tcalls = 0, injected = 0, shorts = 0, entered = 0;
+    std::vector<std::pair<size_t, uint8_t>> patch; std::vector<KCall> calls;
+    uint8_t at(size_t i) const { uint64_t z = mix64(seed ^ 0x4b65726eULL, i / 8); z ^= z >> 31; uint8_t v = (uint8_t) (z >> (8 * (i % 8))); for (auto &p : patch) if (p.first == i) v ^= p.second; return v; }
+    void serve(void *buf, size_t n, bool probe) { uint8_t *b = (uint8_t *) buf; for (size_t i = 0; i < n; i++) b[i] = at(pos + i); calls.push_back({ b, n, pos, probe }); pos += n; }
+    bool inject() { uint64_t h = mix64(seed ^ 0x1a7eULL, ncall++); if (h % 4 == 0 && fail_run < 3) { fail_run++; injected++; errno = (h & 16) ? EINTR : EAGAIN; return true; } fail_run = 0; return false; }
+    // bytes served since call index `mark`, in order, without the 16-byte availability probe of getrandom()
+    Bytes served_since(size_t mark) const { Bytes o; for (size_t c = mark; c < calls.size(); c++) if (!calls[c].probe) for (size_t i = 0; i < calls[c].n; i++) o.push_back(at(calls[c].off + i)); return o; }
+    std::vector<size_t> offsets_since(size_t mark) const { std::vector<size_t> o; for (size_t c = mark; c < calls.size(); c++) if (!calls[c].probe) for (size_t i = 0; i < calls[c].n; i++) o.push_back(calls[c].off + i); return o; }
+};
+Kernel K;
+
+struct KCase {
+    int impl, mode; uint64_t seed; int variant;   // impl 0 sysrandom, 1 internal; mode 0 getrandom(2), 1 read(2) on /dev/urandom; variant (internal): reseed through 0 close, 1 stir, 2 close+stir
+    KV kv() const { KV k; k.s("kind", "kernel").u("impl", impl).u("mode", mode).u("seed", seed).u("variant", variant); return k; }
+};
+const char *kmode(int m) { return m ? "read(2) on /dev/urandom (getrandom unavailable), short reads and EINTR/EAGAIN" : "getrandom(2) with EINTR/EAGAIN"; }
+
+// every byte of [p, p+n) must have been written by the kernel source during the call and still hold the byte served for it
+bool covered(const uint8_t *p, size_t n, size_t mark, std::string &why) {
+    std::vector<int> v(n, -1);
+    for (size_t c = mark; c < K.calls.size(); c++) { const KCall &kc = K.calls[c]; for (size_t i = 0; i < kc.n; i++) { const uint8_t *a = kc.dst + i; if (a >= p && a < p + n) v[(size_t) (a - p)] = K.at(kc.off + i); } }
+    for (size_t i = 0; i < n; i++) {
+        if (v[i] < 0) { why = "byte " + std::to_string(i) + " of " + std::to_string(n) + " was never filled from the kernel source"; return false; }
+        if (p[i] != (uint8_t) v[i]) { why = "byte " + std::to_string(i) + " of " + std::to_string(n) + " is not the byte the kernel source served for that position"; return false; }
+    }
+    return true;
+}
+const size_t KLENS[] = { 1, 2, 3, 4, 5, 15, 16, 17, 31, 32, 33, 63, 64, 65, 100, 255, 256, 257, 300, 511, 512, 513, 600, 767, 768, 769, 1000, 1025 };
+
+bool child_sys(const KCase &c, std::string &msg, Bytes &digest) {
+    Rng r(mix64(c.seed, 0x5359));
+    randombytes_set_implementation(&randombytes_sysrandom_implementation);
+    randombytes_stir();
+    std::string where = std::string(" [sysrandom on ") + kmode(c.mode) + "]";
+    int nops = 6 + (int) r.below(10);
+    for (int k = 0; k < nops; k++) {
+        size_t mark = K.calls.size(); std::string why;
+        switch (r.below(9)) {
+        case 0: case 1: case 2: {
+            size_t n = r.below(4) ? KLENS[r.below(sizeof KLENS / sizeof KLENS[0])] : 1 + (size_t) r.below(1500);
+            XBuf b(n, (size_t) r.below(16));
+            if (r.below(2)) randombytes_buf(b.p, n); else randombytes(b.p, n);
+            if (K.entered == 0) { msg = "INFRA the interposed kernel entry points were not used"; return false; }
+            if (!covered(b.p, n, mark, why)) { msg = "randombytes_buf(" + std::to_string(n) + "): " + why + where; return false; }
+            Bytes o = b.get(); digest.insert(digest.end(), o.begin(), o.end());
+            break; }
+        case 3: {
+            uint32_t v = randombytes_random(); Bytes s = K.served_since(mark);
+            if (s.size() < 4 || v != ((uint32_t) s[0] | (uint32_t) s[1] << 8 | (uint32_t) s[2] << 16 | (uint32_t) s[3] << 24)) { msg = "randombytes_random() is not the 4 bytes the kernel source served for it (served " + std::to_string(s.size()) + " bytes)" + where; return false; }
+            break; }
+        case 4: {
+            static const uint32_t BS[] = { 0x80000001u, 0xc0000000u, 3u, 1000003u, 0xfffffffeu, 0xaaaaaaabu, 2u, 0x55555556u };
+            uint32_t n = r.below(3) ? BS[r.below(8)] : (uint32_t) r.next() | 1u << 31;
+            uint32_t got = randombytes_uniform(n); Bytes s = K.served_since(mark);
+            uint64_t minv = 0x100000000ULL % n; bool found = false; uint32_t want = 0;
+            for (size_t i = 0; i + 4 <= s.size(); i += 4) { uint32_t d = (uint32_t) s[i] | (uint32_t) s[i + 1] << 8 | (uint32_t) s[i + 2] << 16 | (uint32_t) s[i + 3] << 24; if (d >= minv) { want = d % n; found = true; break; } }
+            if (!found || got != want) { msg = "randombytes_uniform(" + std::to_string(n) + ") = " + std::to_string(got) + " is not the first accepted 32-bit draw of the kernel bytes modulo the bound" + (found ? " (" + std::to_string(want) + ")" : " (no accepted draw was served)") + where; return false; }
+            break; }
+        case 5: {
+            XBuf key(32, (size_t) r.below(16)); crypto_secretbox_keygen(key.p);
+            if (!covered(key.p, 32, mark, why)) { msg = "crypto_secretbox_keygen: " + why + where; return false; }
+            XBuf k2(64, (size_t) r.below(16)); mark = K.calls.size(); crypto_kdf_hkdf_sha512_keygen(k2.p);
+            if (!covered(k2.p, 64, mark, why)) { msg = "crypto_kdf_hkdf_sha512_keygen: " + why + where; return false; }
+            break; }
+        case 6: {
+            XBuf pk(32, (size_t) r.below(16)), sk(32, (size_t) r.below(16)); crypto_box_keypair(pk.p, sk.p);
+            if (!covered(sk.p, 32, mark, why)) { msg = "crypto_box_keypair secret key: " + why + where; return false; }
+            if (pk.get() != ref::x25519_base(sk.get())) { msg = "crypto_box_keypair: public key does not belong to the secret key" + where; return false; }
+            break; }
+        case 7: (void) randombytes_close(); break;
+        default: randombytes_stir(); break;
+        }
+    }
+    return true;
+}
+
+// internal generator: (re)seeding must take at least 32 bytes from the kernel source - on first use, on randombytes_stir() and on the first
+// use after randombytes_close() - and what is generated afterwards must depend on every one of them (compared across two children)
+bool child_internal(const KCase &c, std::string &msg, Bytes &d1, Bytes &d2, std::vector<size_t> &s1, std::vector<size_t> &s2) {
+    Rng r(mix64(c.seed, 0x494e));
+    sodium_verif_set_cpu_mask(F_ALL & ~(unsigned long) F_RDRAND);      // the RDRAND mix-in would make the two children incomparable
+    randombytes_set_implementation(&randombytes_internal_implementation);
+    std::string where = std::string(" [internal generator on ") + kmode(c.mode) + "]";
+    auto gen = [&](Bytes &d) {
+        int n = 2 + (int) r.below(4);
+        for (int k = 0; k < n; k++) {
+            if (r.below(3) == 0) { uint32_t v = randombytes_random(); for (int i = 0; i < 4; i++) d.push_back((uint8_t) (v >> (8 * i))); }
+            else { size_t len = KLENS[r.below(sizeof KLENS / sizeof KLENS[0])]; XBuf b(len, (size_t) r.below(16)); randombytes_buf(b.p, len); Bytes o = b.get(); d.insert(d.end(), o.begin(), o.end()); }
+        }
+    };
+    size_t mark = K.calls.size();
+    if (r.below(2)) randombytes_stir();
+    { XBuf b(32, 0); randombytes_buf(b.p, 32); Bytes o = b.get(); d1.insert(d1.end(), o.begin(), o.end()); }
+    if (K.entered == 0) { msg = "INFRA the interposed kernel entry points were not used"; return false; }
+    s1 = K.offsets_since(mark);
+    if (s1.size() < 32) { msg = "the first output was generated after only " + std::to_string(s1.size()) + " seed bytes were requested from the kernel source (32-byte key)" + where; return false; }
+    gen(d1);
+    // reseed
+    size_t mark2 = K.calls.size();
+    const char *how = c.variant == 0 ? "randombytes_close()" : c.variant == 1 ? "randombytes_stir()" : "randombytes_close() + randombytes_stir()";
+    if (c.variant == 0 || c.variant == 2) (void) randombytes_close();
+    if (c.variant == 1 || c.variant == 2) {
+        randombytes_stir();
+        if (K.offsets_since(mark2).size() < 32) { msg = std::string(how) + " requested " + std::to_string(K.offsets_since(mark2).size()) + " bytes from the kernel source: the generator was not reseeded" + where; return false; }
+    }
+    { XBuf b(32, 0); randombytes_buf(b.p, 32); Bytes o = b.get(); d2.insert(d2.end(), o.begin(), o.end()); }
+    s2 = K.offsets_since(mark2);
+    if (s2.size() < 32) { msg = std::string("the first output after ") + how + " was generated after " + std::to_string(s2.size()) + " new seed bytes were requested from the kernel source: the generator was not reseeded" + where; return false; }
+    gen(d2);
+    return true;
+}
+
+struct KRes { int st = 3; std::string msg; Bytes d1, d2; std::vector<size_t> s1, s2; uint64_t injected = 0, ncalls = 0; };   // st 0 ok, 1 property failure, 2 infrastructure, 3 child died
+KRes run_child(const KCase &c, const std::vector<std::pair<size_t, uint8_t>> &patch) {
+    KRes R; int fd[2];
+    if (pipe(fd) != 0) { R.st = 2; R.msg = "pipe failed"; return R; }
+    fflush(stdout); fflush(stderr);
+    pid_t pid = fork();
+    if (pid < 0) { R.st = 2; R.msg = "fork failed"; close(fd[0]); close(fd[1]); return R; }
+    if (pid == 0) {
+        close(fd[0]);
+        K = Kernel(); K.mode = c.mode; K.seed = c.seed; K.patch = patch; K.active = true;
+        std::string msg; Bytes d1, d2; std::vector<size_t> s1, s2;
+        bool ok = c.impl == 0 ? child_sys(c, msg, d1) : child_internal(c, msg, d1, d2, s1, s2);
+        K.active = false;
+        KV k; k.u("st", ok ? 0 : (msg.rfind("INFRA", 0) == 0 ? 2 : 1)).s("msg", msg).b("d1", d1).b("d2", d2).u("inj", K.injected).u("nc", K.calls.size());
+        Bytes o1, o2; for (size_t i = 0; i < 32 && i < s1.size(); i++) for (int b = 0; b < 8; b++) o1.push_back((uint8_t) (s1[i] >> (8 * b)));
+        for (size_t i = 0; i < 32 && i < s2.size(); i++) for (int b = 0; b < 8; b++) o2.push_back((uint8_t) (s2[i] >> (8 * b)));
+        k.b("s1", o1).b("s2", o2);
+        std::string line = k.text() + "#END\n";
+        size_t off = 0; while (off < line.size()) { ssize_t w = write(fd[1], line.data() + off, line.size() - off); if (w <= 0) break; off += (size_t) w; }
+        _exit(0);
+    }
+    close(fd[1]);
+    std::string in; char buf[4096]; ssize_t n;
+    while ((n = read(fd[0], buf, sizeof buf)) > 0 || (n < 0 && errno == EINTR)) if (n > 0) in.append(buf, (size_t) n);
+    close(fd[0]);
+    int status = 0; while (waitpid(pid, &status, 0) < 0 && errno == EINTR) {}
+    if (in.size() < 5 || in.compare(in.size() - 5, 5, "#END\n") != 0) {
+        R.st = 3; char b[160]; snprintf(b, sizeof b, "the library terminated the process (wait status 0x%x%s) while generating from a built-in source on %s", status, WIFSIGNALED(status) && WTERMSIG(status) == SIGABRT ? ", abort/sodium_misuse" : "", kmode(c.mode)); R.msg = b; return R;
+    }
+    KV k = KV::parse(in);
+    R.st = (int) k.gu("st"); R.msg = k.gs("msg"); R.d1 = k.gb("d1"); R.d2 = k.gb("d2"); R.injected = k.gu("inj"); R.ncalls = k.gu("nc");
+    auto dec = [](const Bytes &b) { std::vector<size_t> o; for (size_t i = 0; i + 8 <= b.size(); i += 8) { size_t v = 0; for (int j = 7; j >= 0; j--) v = (v << 8) | b[i + (size_t) j]; o.push_back(v); } return o; };
+    R.s1 = dec(k.gb("s1")); R.s2 = dec(k.gb("s2"));
+    return R;
+}
+
+bool dev_urandom_usable() {
+    static int st = -1;
+    if (st < 0) { int fd = open("/dev/urandom", O_RDONLY); struct stat sb; st = (fd >= 0 && fstat(fd, &sb) == 0 && S_ISCHR(sb.st_mode)) ? 1 : 0; if (fd >= 0) close(fd); }
+    return st == 1;
+}
+uint64_t g_kernel_skipped = 0;
+
+bool run_kernel(const KCase &c, std::string &msg) {
+    init_once();
+    if (c.mode == 1 && !dev_urandom_usable()) { g_kernel_skipped++; return true; }
+    KRes a = run_child(c, {});
+    if (a.st == 2) { fprintf(stderr, "VH-INFRA built-in source scenario: %s\n", a.msg.c_str()); _exit(2); }
+    if (a.st != 0) { msg = a.msg; return false; }
+    if (c.impl == 0) return true;
+    // every seed byte counts: flip one bit of one of the 32 bytes served for the first / the second seeding and compare what is generated afterwards
+    Rng r(mix64(c.seed, 0xf11b));
+    for (int phase = 0; phase < 2; phase++) {
+        const std::vector<size_t> &s = phase ? a.s2 : a.s1;
+        if (s.size() < 32) { msg = "internal generator: fewer than 32 seed bytes recorded"; return false; }
+        size_t j = (size_t) r.below(32); uint8_t bit = (uint8_t) (1u << r.below(8));
+        KRes b = run_child(c, { { s[j], bit } });
+        if (b.st == 2) { fprintf(stderr, "VH-INFRA built-in source scenario: %s\n", b.msg.c_str()); _exit(2); }
+        if (b.st != 0) { msg = b.msg; return false; }
+        const Bytes &da = phase ? a.d2 : a.d1, &db = phase ? b.d2 : b.d1;
+        if (da == db) { msg = std::string("internal generator: changing byte ") + std::to_string(j) + " of the 32 seed bytes served by the kernel source " + (phase ? "for the reseeding" : "for the first seeding") + " did not change anything generated afterwards (" + std::to_string(da.size()) + " bytes compared) [" + kmode(c.mode) + "]"; return false; }
+    }
+    return true;
+}
+
+void explore_kernel(Ctx &ctx) {
+    Rng r = ctx.rng("c18-kernel");
+    uint64_t idx = 0;
+    size_t n = ctx.thorough() ? 1500 : 240;
+    for (size_t i = 0; i < n; i++) {
+        KCase c{ (int) (i % 2), (int) ((i / 2) % 2), r.next(), (int) ((i / 4) % 3) };
+        if (!ctx.mine(idx++)) continue;
+        exec_case(ctx, c, run_kernel, mix64(mix64(c.impl, c.mode), mix64(c.seed, c.variant)), true);
+    }
+    ctx.notes["builtin_source_scenarios_skipped"] = std::to_string(g_kernel_skipped);
+}
+
 bool replay(const KV &k, std::string &msg) {
+    if (k.gs("kind") == "kernel") { KCase c{ (int) k.gu("impl"), (int) k.gu("mode"), k.gu("seed"), (int) k.gu("variant") }; return run_kernel(c, msg); }
     if (k.gs("kind") == "uniform") { UniCase c; c.n = (uint32_t) k.gu("n"); Bytes d = k.gb("draws"); for (size_t i = 0; i + 4 <= d.size(); i += 4) c.draws.push_back((uint32_t) d[i] | ((uint32_t) d[i + 1] << 8) | ((uint32_t) d[i + 2] << 16) | ((uint32_t) d[i + 3] << 24)); return run_uniform(c, msg); }
     if (k.gs("kind") == "det") { DetCase c{ (size_t) k.gu("len"), k.gb("seed"), (unsigned long) k.gu("mask") }; return run_det(c, msg); }
     GenCase c; c.g = -1;
@@ -325,5 +531,64 @@ bool replay(const KV &k, std::string &msg) {
 }  // namespace
 
 std::vector<Sub> vh_subs() {
-    return { { "uniform", explore_uniform, replay }, { "deterministic", explore_det, replay }, { "generators", explore_gen, replay } };
+    return { { "uniform", explore_uniform, replay }, { "deterministic", explore_det, replay }, { "generators", explore_gen, replay }, { "builtin_sources", explore_kernel, replay } };
+}
+
+// ------------------------------------------------------------------ link-time interposition (-Wl,--wrap=...): pass-through unless a scenario is active
+extern "C" {
+ssize_t __real_getrandom(void *, size_t, unsigned int);
+ssize_t __real_read(int, void *, size_t);
+int __real_getentropy(void *, size_t);
+int __real_open(const char *, int, ...);
+int __real_open64(const char *, int, ...);
+int __real_gettimeofday(struct timeval *, void *);
+
+ssize_t __wrap_getrandom(void *buf, size_t n, unsigned int flags) {
+    if (!K.active) return __real_getrandom(buf, n, flags);
+    K.entered++;
+    if (K.mode == 1) { errno = ENOSYS; return -1; }
+    if (K.inject()) return -1;
+    K.serve(buf, n, n == 16);
+    return (ssize_t) n;
+}
+// the internal generator prefers getentropy(3) (glibc implements it with the getrandom system call, not through the getrandom() entry point)
+int __wrap_getentropy(void *buf, size_t n) {
+    if (!K.active) return __real_getentropy(buf, n);
+    K.entered++;
+    if (K.mode == 1) { errno = ENOSYS; return -1; }
+    if (n > 256) { errno = EIO; return -1; }
+    K.ncall++;
+    K.serve(buf, n, n == 16);
+    return 0;
+}
+ssize_t __wrap_read(int fd, void *buf, size_t n) {
+    if (!K.active || K.ufd < 0 || fd != K.ufd || n == 0) return __real_read(fd, buf, n);
+    K.entered++;
+    if (K.inject()) return -1;
+    uint64_t h = mix64(K.seed ^ 0x73686f72ULL, K.ncall);
+    size_t give = n;
+    switch (h % 3) { case 0: break; case 1: give = 1 + (size_t) ((h >> 8) % (n < 8 ? n : 8)); break; default: give = 1 + (size_t) ((h >> 8) % n); break; }
+    if (give < n) K.shorts++;
+    K.serve(buf, give, false);
+    return (ssize_t) give;
+}
+static int k_opened(const char *path, int fd) {
+    if (K.active && fd >= 0 && path && (!strcmp(path, "/dev/urandom") || !strcmp(path, "/dev/random"))) K.ufd = fd;
+    return fd;
+}
+int __wrap_open(const char *path, int flags, ...) {
+    mode_t mode = 0;
+    if (flags & (O_CREAT | O_TMPFILE)) { va_list ap; va_start(ap, flags); mode = (mode_t) va_arg(ap, int); va_end(ap); }
+    return k_opened(path, __real_open(path, flags, mode));
+}
+int __wrap_open64(const char *path, int flags, ...) {
+    mode_t mode = 0;
+    if (flags & (O_CREAT | O_TMPFILE)) { va_list ap; va_start(ap, flags); mode = (mode_t) va_arg(ap, int); va_end(ap); }
+    return k_opened(path, __real_open64(path, flags, mode));
+}
+int __wrap_gettimeofday(struct timeval *tv, void *tz) {
+    if (!K.active) return __real_gettimeofday(tv, tz);
+    if (tv) { tv->tv_sec = 1700000000; tv->tv_usec = (suseconds_t) (1000 + K.tcalls++); }
+    return 0;
+}
 }
